@@ -1845,6 +1845,89 @@ fn path_family(run: &Run) {
     paths.push(vec![El::M(3.0, 4.0)]);
     paths.push(vec![El::M(3.0, 4.0), El::Z]);
     run.count("D2.open_zero_length_and_malformed_variants", variants + 2);
+    // D3: a join between two consecutive quads whose on-curve point is taken RELATIVE to the true midpoint
+    // M of the two controls: it may be dropped (and is re-implied when drawn) only when it is exactly M
+    {
+        let a = [-40.0f64, -21.0, 10.0, 31.0];
+        let mut d3 = 0u64;
+        for c0x in a {
+            for c0y in a {
+                for c1x in a {
+                    for c1y in a {
+                        let (c0, c1) = ((c0x, c0y), (c1x, c1y));
+                        let m = ((c0x + c1x) / 2.0, (c0y + c1y) / 2.0);
+                        if m.0 == 0.0 || m.1 == 0.0 || c0 == c1 {
+                            continue;
+                        }
+                        let mut joins: Vec<(f64, f64)> = vec![];
+                        for j in [
+                            m,
+                            (m.0 + 1.0, m.1),
+                            (m.0, m.1 - 1.0),
+                            (-m.0, m.1),
+                            (m.0, -m.1),
+                            (-m.0, -m.1),
+                            (m.1, m.0),
+                            (2.0 * m.0, 2.0 * m.1),
+                            (0.0, 0.0),
+                        ] {
+                            if !joins.contains(&j) && j != c0 && j != c1 {
+                                joins.push(j);
+                            }
+                        }
+                        // far anchors, distinct from every join candidate (|coordinates| <= 80)
+                        let (s, e, p) = ((200.0, 0.0), (0.0, 200.0), (200.0, 200.0));
+                        for j in joins {
+                            // join in the middle, at the first point, at the last on-curve point
+                            let shapes: [Vec<El>; 3] = [
+                                vec![El::M(s.0, s.1), El::Q(c0.0, c0.1, j.0, j.1), El::Q(c1.0, c1.1, e.0, e.1), El::L(s.0, s.1), El::Z],
+                                vec![El::M(j.0, j.1), El::Q(c1.0, c1.1, e.0, e.1), El::L(p.0, p.1), El::Q(c0.0, c0.1, j.0, j.1), El::Z],
+                                vec![El::M(s.0, s.1), El::L(p.0, p.1), El::Q(c0.0, c0.1, j.0, j.1), El::Q(c1.0, c1.1, s.0, s.1), El::Z],
+                            ];
+                            for els in shapes {
+                                // the other winding: the same contour traversed backwards
+                                let mut pts: Vec<(f64, f64)> = vec![];
+                                let mut rev: Vec<El> = vec![];
+                                if let El::M(x, y) = els[0] {
+                                    pts.push((x, y));
+                                }
+                                // collect segments as (kind, control, end), then emit reversed
+                                let mut segs: Vec<(Option<(f64, f64)>, (f64, f64), (f64, f64))> = vec![];
+                                let mut at = pts[0];
+                                for el in &els[1..] {
+                                    match *el {
+                                        El::L(x, y) => {
+                                            segs.push((None, at, (x, y)));
+                                            at = (x, y);
+                                        }
+                                        El::Q(cx, cy, x, y) => {
+                                            segs.push((Some((cx, cy)), at, (x, y)));
+                                            at = (x, y);
+                                        }
+                                        _ => {}
+                                    }
+                                }
+                                rev.push(El::M(at.0, at.1));
+                                for (c, from, _) in segs.iter().rev() {
+                                    match c {
+                                        None => rev.push(El::L(from.0, from.1)),
+                                        Some(c) => rev.push(El::Q(c.0, c.1, from.0, from.1)),
+                                    }
+                                }
+                                rev.push(El::Z);
+                                paths.push(els);
+                                paths.push(rev);
+                                d3 += 2;
+                            }
+                        }
+                    }
+                }
+            }
+        }
+        run.count("D3.quad_join_paths", d3);
+        run.bound("D3.controls", json!("both controls of the join over {-40, -21, 10, 31}^2 (midpoint with non-zero x and y, integer and half-integer)"));
+        run.bound("D3.join_point", json!("M, M+(1,0), M-(0,1), (-Mx,My), (Mx,-My), (-Mx,-My), (My,Mx), 2M, (0,0); join at the first / a middle / the last on-curve position; both windings"));
+    }
     // the empty path: documented as an error; whatever happens must not be a panic (recorded)
     {
         let r = guard(|| SimpleGlyph::from_bezpath(&BezPath::new()));
